@@ -1,10 +1,10 @@
 CONSTANTS
-  Batches <- Batches4
+  Batches <- Batches3
   Need <- NeedDef
   NProcs = {1, 2, 3}
   SharedPerChunk = FALSE
-  OptSets <- OptsDefault
-  SwapOptions = FALSE
+  OptSets <- OptsAll
+  SwapOptions = TRUE
   Export = FALSE
 SPECIFICATION Spec
 INVARIANT Independent
